@@ -6,7 +6,7 @@ import ArvVerif.Props.C10
 import ArvVerif.Proofs.C10_Normalize
 import ArvVerif.Proofs.C10_Termination
 import ArvVerif.Proofs.C10_SizedDigests
-import ArvVerif.Proofs.C10_Extract
+import ArvVerif.Proofs.C10_Decimal
 namespace ArvVerif.C10
 
 /-- **C10_resolve_bytes.** `resolve` is the document's semantics: for block contents `blk` of the
@@ -152,5 +152,24 @@ theorem C10_normalize_preserves (blk : Bytes → Bytes) (name : Bytes) (files : 
     ∀ fn ∈ sorted, (normSpansS r.1 (segsOf fn) none).flatMap (spanSlice S) = segBytes blk (segsOf fn) := by
   intro sorted segsOf r btoks S
   exact ⟨normalizedText_eq name files, fun fn => mem_sortBytes fn _, normalizedText_bytes blk files hc⟩
+
+/-- **C10_rendered_token_parses.** Text rendering and re-parsing of one file token are inverse: what
+`normalizedText` writes with `fmt.Sprintf("%d:%d:%s", pos, len, EscapeName(name))` is read back by
+`parseFileStreamSegment` (`SplitN`, `ParseUint`, `UnescapeName`) as exactly (pos, len, name), for
+every name (any bytes, colons included) and every pos, len below 2^64; hence all tokens of a file
+in `normalizedText`'s output parse back to its spans and its name. -/
+theorem C10_rendered_token_parses (a l : Nat) (fn : Bytes) (ha : a < two64) (hl : l < two64) :
+    pkgFileTok (fileTokText (a : Int) (l : Int) (pkgEscape fn)) = some ⟨a, l, fn⟩ :=
+  pkgFileTok_rendered a l fn ha hl
+
+theorem C10_rendered_file_parses (tbl : List (Bytes × Nat)) (fn : Bytes) (segs : List Seg)
+    (hb : ∀ p ∈ normSpansS tbl segs none, p.1 < two64 ∧ p.2 < two64) :
+    (normFileToks tbl fn segs).map pkgFileTok =
+      ((normSpansS tbl segs none).map fun p => some (⟨p.1, p.2, fn⟩ : FTok)) ++
+        (if segs.isEmpty then [some ⟨0, 0, fn⟩] else []) :=
+  normFileToks_parse tbl fn segs hb
+
+example : pkgFileTok (fileTokText 12 345 (pkgEscape [97, 32, 58, 92])) = some ⟨12, 345, [97, 32, 58, 92]⟩ :=
+  C10_rendered_token_parses 12 345 _ (by decide) (by decide)
 
 end ArvVerif.C10
